@@ -562,3 +562,58 @@ theorem entityCandidates_most_specific (rows : List Row) (fuel : Nat) (hf : fuel
     exact ⟨[], [], rfl, fun h => by simp at h, fun _ c hc => by simp at hc⟩
 
 end Hs.NsA
+
+namespace Hs.NsA
+open Hs Hs.Ns
+
+/-! ### the indexes built by `make` -/
+
+theorem mem_features (x : NsX) (n : Name) : n ∈ features x ↔ ∃ d, d ∈ x.xd ∧ d.name = n ∧ isFeature n = true := by
+  unfold features
+  simp only [List.mem_map, List.mem_filter]
+  constructor
+  · rintro ⟨d, ⟨hd, hf⟩, rfl⟩; exact ⟨d, hd, rfl, hf⟩
+  · rintro ⟨d, hd, rfl, hf⟩; exact ⟨d, ⟨hd, hf⟩, rfl⟩
+
+theorem mem_conjuncts (x : NsX) (n : Name) : n ∈ conjuncts x ↔ ∃ d, d ∈ x.xd ∧ d.name = n ∧ isConjunct n = true := by
+  unfold conjuncts
+  simp only [List.mem_map, List.mem_filter]
+  constructor
+  · rintro ⟨d, ⟨hd, hf⟩, rfl⟩; exact ⟨d, hd, rfl, hf⟩
+  · rintro ⟨d, hd, rfl, hf⟩; exact ⟨d, ⟨hd, hf⟩, rfl⟩
+
+/-- `tag_on_names`: exactly the Symbol items of the `tagOn` lists of all defs, each once -/
+theorem mem_tagOnNames (x : NsX) (n : Name) :
+    n ∈ tagOnNames x ↔ ∃ d l, d ∈ x.xd ∧ d.getList nTagOn = some l ∧ some n ∈ l := by
+  unfold tagOnNames
+  rw [mem_extendSet]
+  simp only [List.not_mem_nil, false_or, List.mem_flatMap]
+  constructor
+  · rintro ⟨d, hd, hm⟩
+    cases hl : d.getList nTagOn with
+    | none => simp [hl] at hm
+    | some l =>
+      simp only [hl, symItems, List.mem_filterMap, id] at hm
+      obtain ⟨it, hit, rfl⟩ := hm
+      exact ⟨d, l, hd, hl, hit⟩
+  · rintro ⟨d, l, hd, hl, hn⟩
+    refine ⟨d, hd, ?_⟩
+    simp only [hl, symItems, List.mem_filterMap, id]
+    exact ⟨some n, hn, rfl⟩
+
+/-- `tag_on_defs`: one entry per def that has a `tagOn` list, holding the defined Symbol items in list order -/
+theorem mem_tagOnDefs (x : NsX) (k : Name) (v : List Name) :
+    (k, v) ∈ tagOnDefs x ↔ ∃ d l, d ∈ x.xd ∧ d.name = k ∧ d.getList nTagOn = some l ∧ v = definedSyms x.ns.defs l := by
+  unfold tagOnDefs
+  simp only [List.mem_filterMap]
+  constructor
+  · rintro ⟨d, hd, hm⟩
+    cases hl : d.getList nTagOn with
+    | none => simp [hl] at hm
+    | some l =>
+      simp only [hl, Option.some.injEq, Prod.mk.injEq] at hm
+      exact ⟨d, l, hd, hm.1, hl, hm.2.symm⟩
+  · rintro ⟨d, l, hd, rfl, hl, rfl⟩
+    exact ⟨d, hd, by simp [hl]⟩
+
+end Hs.NsA
